@@ -11,7 +11,8 @@ use boomphf::hashmap::BoomHashMap2;
 use debruijn::dna_string::DnaString;
 use debruijn::filter::{filter_kmers, CountFilter, CountFilterSet};
 use debruijn::verif_hooks;
-use debruijn::{Exts, Kmer};
+use debruijn::vmer::Lmer3;
+use debruijn::{DnaBytes, Exts, Kmer, Vmer};
 use serde_json::json;
 use std::collections::{BTreeMap, BTreeSet};
 
@@ -56,6 +57,7 @@ fn unit_for_passes(kmer_mem: usize, target: usize) -> Option<usize> {
 }
 
 struct FCase {
+    container: usize,
     kidx: usize,
     stranded: bool,
     report_all: bool,
@@ -119,6 +121,7 @@ fn gen_fcase(c: &mut Case) -> FCase {
         }
     }
     FCase {
+        container: c.rng.below(3),
         kidx,
         stranded: c.rng.chance(1, 2),
         report_all: c.rng.chance(1, 2),
@@ -131,11 +134,24 @@ fn gen_fcase(c: &mut Case) -> FCase {
 type SpyOut<K> = (BoomHashMap2<K, Exts, Vec<(u32, u8)>>, Vec<K>, u64);
 
 fn run_spy<K: Kmer>(fc: &FCase, unit: Option<usize>) -> (SpyOut<K>, Vec<verif_hooks::PassRecord>) {
-    let input = dna_seqs(&fc.seqs);
     let spy = Box::new(SpySummarizer::new(fc.min_obs));
     verif_hooks::set_filter_mem_unit(unit);
-    let (idx, all): (BoomHashMap2<K, Exts, Vec<(u32, u8)>>, Vec<K>) =
-        filter_kmers(&input, &spy, fc.stranded, fc.report_all, 1);
+    // the input container is part of the configuration: growable string, byte vector, fixed-size string
+    let fits_lmer = fc.seqs.iter().all(|s| s.bases.len() <= Lmer3::max_len());
+    let (idx, all): (BoomHashMap2<K, Exts, Vec<(u32, u8)>>, Vec<K>) = match fc.container {
+        1 => {
+            let input: Vec<(DnaBytes, Exts, u32)> = fc.seqs.iter().map(|s| (DnaBytes(s.bases.clone()), Exts::new(s.exts), s.label)).collect();
+            filter_kmers(&input, &spy, fc.stranded, fc.report_all, 1)
+        }
+        2 if fits_lmer => {
+            let input: Vec<(Lmer3, Exts, u32)> = fc.seqs.iter().map(|s| (Lmer3::from_slice(&s.bases), Exts::new(s.exts), s.label)).collect();
+            filter_kmers(&input, &spy, fc.stranded, fc.report_all, 1)
+        }
+        _ => {
+            let input = dna_seqs(&fc.seqs);
+            filter_kmers(&input, &spy, fc.stranded, fc.report_all, 1)
+        }
+    };
     verif_hooks::set_filter_mem_unit(None);
     let calls = *spy.calls.borrow();
     ((idx, all, calls), verif_hooks::filter_pass_trace())
@@ -408,6 +424,8 @@ fn c05_case<K: Kmer>(c: &mut Case, fc: &FCase, pass_targets: &[usize]) -> Result
     c.count("cases_stranded", fc.stranded as u64);
     c.count("cases_style_b_unique_ids", fc.style_b as u64);
     c.count("cases_report_all", fc.report_all as u64);
+    c.count("cases_input_as_byte_vectors", (fc.container == 1) as u64);
+    c.count("cases_input_as_fixed_size_strings", (fc.container == 2) as u64);
     let npal = t.keys().filter(|x| is_pal(x, fc.stranded)).count();
     c.count("palindromic_keys", npal as u64);
     let repeated = t.values().filter(|r| r.obs.len() > 1).count();
